@@ -85,18 +85,18 @@ func main() {
 	r.Set("query_points", rtreemc.NumQueryPoints())
 	if tier == "thorough" {
 		regs = []regime{
-			{"full(2,4)x7+dup", 7, 2, 4, nil, 80, []int{0}, 0},
-			{"full(2,4)x7+dup5", 7, 2, 4, nil, 80, []int{5}, 0},
-			{"full(2,5)x8", 8, 2, 5, nil, 80, nil, 0},
-			{"full(3,6)x9", 9, 3, 6, nil, 24, []int{0}, 0},
-			{"full(4,8)x9", 9, 4, 8, nil, 12, []int{0}, 0},
-			{"scaled-full(2,4)x7", 7, 2, 4, nil, 200, nil, 2},
-			{"seeds(2,4)x13", 13, 2, 4, seedOrders(13), 5, nil, 0},
-			{"spread-seeds(2,4)x13", 13, 2, 4, seedOrders(13), 5, nil, 1},
+			{"full(2,4)x7", 7, 2, 4, nil, 200, nil, 0},
+			{"full(2,4)x6+dup", 6, 2, 4, nil, 200, []int{0}, 0},
+			{"full(2,4)x6+dup5", 6, 2, 4, nil, 200, []int{5}, 0},
+			{"full(2,5)x7", 7, 2, 5, nil, 200, nil, 0},
+			{"scaled-full(2,4)x6", 6, 2, 4, nil, 200, []int{0}, 2},
 			{"spread-full(2,4)x7", 7, 2, 4, nil, 60, []int{0}, 1},
-			{"spread-seeds(3,6)x16", 16, 3, 6, seedOrders(16), 3, nil, 1},
-			{"seeds(2,5)x16", 16, 2, 5, seedOrders(16), 4, nil, 0},
-			{"seeds(3,6)x16", 16, 3, 6, seedOrders(16), 4, nil, 0},
+			{"seeds(2,4)x13", 13, 2, 4, seedOrders(13), 4, nil, 0},
+			{"spread-seeds(2,4)x13", 13, 2, 4, seedOrders(13), 4, nil, 1},
+			{"seeds(3,6)x16", 16, 3, 6, seedOrders(16), 3, nil, 0},
+			{"full(3,6)x8", 8, 3, 6, nil, 12, []int{0}, 0},
+			{"full(4,8)x9", 9, 4, 8, nil, 11, []int{0}, 0},
+			{"full(2,5)x8", 8, 2, 5, nil, 80, nil, 0},
 		}
 	}
 	var details []interface{}
